@@ -293,7 +293,41 @@ fn join(v: &[String]) -> String {
     if v.is_empty() { "-".into() } else { v.join("|") }
 }
 
+thread_local! {
+    /// nonces of every request this harness process has seen (freshness across runs is a measurement)
+    static NONCES: std::cell::RefCell<(u64, std::collections::HashSet<Vec<u8>>)> = std::cell::RefCell::new((0, Default::default()));
+}
+
+fn request_nonce(req: &[u8]) -> Option<Vec<u8>> {
+    let body = if req.starts_with(b"ROUGHTIM") { req.get(12..)? } else { req };
+    let f = tv_parse(body)?;
+    Some(f.iter().find(|(t, _)| t == b"NONC")?.1.clone())
+}
+
+pub fn emit_nonce_pool(out: &mut Out, stream: &str) {
+    // only the shard that owns line 0 would normally print; every shard reports its own pool
+    NONCES.with(|n| {
+        let n = n.borrow();
+        let save = out.shard;
+        out.shard = (0, 1);
+        let keep = out.lines;
+        out.lines = 0;
+        out.case("noncepool", &[stream], &format!("total={} distinct={}", n.0, n.1.len()));
+        out.lines = keep + 1;
+        out.shard = save;
+    });
+}
+
 pub fn emit(out: &mut Out, spec: &RunSpec, r: &RunResult) {
+    NONCES.with(|n| {
+        let mut n = n.borrow_mut();
+        for q in &r.requests {
+            if let Some(x) = request_nonce(q) {
+                n.0 += 1;
+                n.1.insert(x);
+            }
+        }
+    });
     let keyopt = match &spec.key {
         None => "none".to_string(),
         Some((b64, k)) => format!("{}:{}", if *b64 { "b64" } else { "hex" }, hex(k)),
@@ -374,6 +408,7 @@ pub fn run_honest(ctx: &Ctx) {
             emit(&mut out, &spec, &res);
         }
     }
+    emit_nonce_pool(&mut out, "client-honest");
     out.flush();
 }
 
@@ -579,6 +614,22 @@ pub fn run_forged(ctx: &Ctx) {
                         emit(&mut out, &spec, &res);
                     }
                 }
+                // a long multi-request run: every request answered honestly except the LAST, which gets the
+                // FIRST request's genuine response (only acceptable if the client reused a nonce)
+                if !b64 {
+                    if !out.mine() { out.skip(); } else {
+                        let t = tmpl.clone();
+                        let k = 40usize;
+                        let spec = RunSpec { ver, key: key.clone(), nreq: k, json: false, kind: "long-run-replay-first-to-last".into() };
+                        let mut first: Vec<u8> = vec![];
+                        let res = run_client(&spec, &mut |j, req| {
+                            if j == 0 { first = t.ask(&mut d, req); first.clone() }
+                            else if j == k - 1 { first.clone() }
+                            else { t.ask(&mut d, req) }
+                        });
+                        emit(&mut out, &spec, &res);
+                    }
+                }
                 // remember a genuine response for the next group's cross-run replay
                 {
                     let t = tmpl.clone();
@@ -625,6 +676,7 @@ pub fn run_forged(ctx: &Ctx) {
             }
         }
     }
+    emit_nonce_pool(&mut out, "client-forged");
     out.flush();
 }
 
